@@ -50,6 +50,9 @@ def plans(draw, max_len=60, styles=("legalish", "survive", "chaos", "legal", "la
 _TERMINATING_SUBST = {"chaos": "late_illegal", "solveish": "solve", "crowded": "crowd_only", "survive": "survive_only"}
 
 
+_LONG_STYLES = ("solve", "survive_only")
+
+
 def restyle(plan: dict, index: int, env_name: str = None) -> dict:
     """Balanced style assignment: Hypothesis' sampled_from is heavily skewed over a few dozen cases, so the
     style is taken round-robin from the plan's style list by the running case index (deterministic), while the
@@ -62,7 +65,12 @@ def restyle(plan: dict, index: int, env_name: str = None) -> dict:
     if env_name in envs.TERMINATE_ON_INVALID and (index // len(styles)) % 2 == 0:
         style = _TERMINATING_SUBST.get(style, style)
     pool = STYLES[style]
-    return dict(plan, style=style, steps=[(pool[u % len(pool)], r) for u, (_, r) in zip(plan["u"], plan["steps"])])
+    steps = [(pool[u % len(pool)], r) for u, (_, r) in zip(plan["u"], plan["steps"])]
+    if style in _LONG_STYLES and (index // len(styles)) % 2 == 1:
+        # every second constructive episode is played six times as long (r shifted per repetition): endings that
+        # need a long purposeful episode (a cleared PacMan level, a full Tetris game, all shelves delivered)
+        steps = [(m, r + 7919 * c) for c in range(6) for m, r in steps]
+    return dict(plan, style=style, steps=steps)
 
 
 def host(x):
